@@ -1104,10 +1104,19 @@ func ruleAggregateFunc(c *Ctx, mx *PkgIndex, rule string) {
 								if len(call.Args) == 1 {
 									if tv := info.Types[call.Args[0]]; tv.Value != nil {
 										arg = tv.Value.String()
+									} else if v, known := evalConst(info, call.Args[0], g.withLocals(env)); known {
+										// the argument folds under this instrument kind (a table entry, a field of a per-kind record)
+										arg = v.String()
 									}
 								}
 								if len(call.Args) > 1 {
 									arg = "…"
+									// the histogram builders take noSum as their last argument: when it folds here, that is its value
+									if v, known := evalConst(info, call.Args[len(call.Args)-1], g.withLocals(env)); known && v.Kind() == constant.Bool {
+										if _, isID := unparen(call.Args[len(call.Args)-1]).(*ast.Ident); !isID {
+											noSum = v.String()
+										}
+									}
 								}
 								builders = append(builders, cf.Name()+"("+arg+")")
 							}
